@@ -27,17 +27,24 @@ ASSUMPTIONS = [
     'coefficients are dyadic Gaussian rationals so that float arithmetic is exact',
 ]
 OPEN_STATEMENTS = [
-    'hc_sound for BosonOperator / QuadOperator (stable re-sort + injectivity of the key map): Corr + oracle only',
-    'commutator_def / anticommutator_def / double_commutator_def at operator level (needs the C01 '
-    'homomorphism theorems): Corr + oracle only',
-    'hopping shortcut of double_commutator equals the normal-ordered commutator: Corr + oracle only',
-    'dc_commutator_sound (diagonal-Coulomb commutator = generic commutator): Corr + oracle only '
-    '(exhaustive over all admissible term pairs on 4 modes)',
+    'hc for BosonOperator / QuadOperator: proved that the stored (re-sorted) key denotes the reversed(-and-flipped) word '
+    '(hc_boson_term_sound, hc_quad_term_sound) and that the formal involution is an anti-homomorphism on generators; '
+    'that this involution is the Hilbert-space adjoint, and injectivity of the key map, are Corr + oracle only',
+    'commutator_def / anticommutator_def are proved for every term functional in the exact regime of the in-place '
+    'addition (hypothesis ExactAdd: no non-zero coefficient below EQ_TOLERANCE is pruned); double_commutator_def '
+    '(two nested normal_ordered calls) is Corr + oracle only',
+    'hopping shortcut: proved for one shared mode, no shared mode and both modes shared (hopping_shortcut_*), for '
+    'hopping operators t (i^ j + j^ i) as in the docstrings',
+    'dc_commutator_sound (diagonal-Coulomb commutator = generic commutator): proved only for the one-body / one-body '
+    'helper on index patterns with pairwise distinct modes (dc_one_body_one_body_sound_partial); open: coinciding '
+    'modes, the double pairing i^ j, j^ i, the one-body / two-body and two-body / two-body helpers, the three-body '
+    'insertion and the sum over term pairs (Corr + oracle: exhaustive over all admissible term pairs on 4 modes, '
+    'random multi-term operators on 5 modes)',
     'trivially_double_commutes_dual_basis soundness holds only outside finding F07 (tdc_dual_sound_partial); '
-    'trivially_double_commutes_dual_basis_using_term_info: oracle only',
+    'trivially_double_commutes_dual_basis_using_term_info: oracle only (all index-set / flag configurations on 4 modes)',
     'bch_expand: exactness proved by kernel computation for orders <= 6 only (no general-order Dynkin '
     'theorem); lifting from the free nilpotent algebra to every nilpotent algebra (universal property) '
-    'and the multi-operator splitting are not formalised (oracle: exact rational nilpotent matrices)',
+    'is not formalised (oracle: exact rational nilpotent matrices, orders <= 8, 2..5 operators)',
 ]
 
 ACTIONS = {'qubit': ['X', 'Y', 'Z'], 'fermion': [0, 1], 'boson': [0, 1], 'quad': ['q', 'p']}
